@@ -76,8 +76,11 @@ def run(ctx, idx):
         node, sel, srt, fk = rec[:4]
         conds = rec[4] if len(rec) > 4 else ()
         br = branch_from_conditions(conds) or branch_of(fi, node)
-        if br is not None and sel and sel[0] in ("TopK", "BottomK", "?", "UnsortedSlice"):
-            seen[br] = (sel, "mean", node)
+        if sel and sel[0] in ("TopK", "BottomK", "?", "UnsortedSlice"):
+            # a slice taken under no Truest/Falsest condition serves both cases
+            for b_ in ([br] if br is not None else ["Truest", "Falsest"]):
+                if br is not None or b_ not in seen:
+                    seen[b_] = (sel, "mean", node)
     meths = {meth for node, sel, meth, fk in r.layer_reduces}
     problems = []
     if not r.layer_reduces:
